@@ -2,7 +2,6 @@ package main
 
 import (
 	"fmt"
-	"sort"
 	"strings"
 )
 
@@ -170,6 +169,9 @@ type program struct {
 	allowed bool   // the interrealm specification allows this write (runs with the victim's storage authority)
 	kind    string // write | construct | persist-realm
 	base    string
+	t       typ    // type of the written location / container
+	steps   int    // selector steps of the access path
+	class   string // finding class (key) shared by several programs; default: the program's own label
 	// needs: which contexts make sense
 	realmOnly bool
 }
@@ -179,7 +181,7 @@ func (p program) label() string { return fmt.Sprintf("%s <%s>", p.path, p.form) 
 func writes(e expr) []program {
 	var ps []program
 	add := func(form, code string, allowed bool) {
-		ps = append(ps, program{path: e.code, form: form, code: e.pre + code, allowed: allowed, kind: "write", base: e.base})
+		ps = append(ps, program{path: e.code, form: form, code: e.pre + code, allowed: allowed, kind: "write", base: e.base, t: e.t, steps: e.steps})
 	}
 	L := e.code
 	switch e.t {
@@ -345,6 +347,41 @@ func realmPersist() []program {
 	return ps
 }
 
+// typePuns: convert a victim value to a named type of the ATTACKER-authored /p/ library alib and call its mutator
+// method (receiver = victim-stamped object: borrow rule #2 would run the attacker's method with the victim's authority;
+// doOpConvert is supposed to refuse the conversion).
+func typePuns() []program {
+	var ps []program
+	class := ""
+	add := func(t typ, form, code string) {
+		ps = append(ps, program{path: "(type pun via attacker /p/ type)", form: form, code: code, kind: "write", base: "typepun", t: t, class: "(type pun via attacker /p/ type) <" + class + ">"})
+	}
+	for _, src := range []struct{ name, code string }{{"victim closure", "vic.XFn"}, {"victim closure from getter", "vic.GetFn()"}, {"victim top-level func", "vic.Zero"}, {"victim bound method", "vic.XPS.Get"}} {
+		class = src.name + " -> named func type, method writes its arguments"
+		add(tSlI, src.name+" -> alib.FI, method writes []int argument", "alib.FI("+src.code+").PokeSl(vic.XSl)")
+		add(tMapI, src.name+" -> alib.FI, method inserts into map argument", "alib.FI("+src.code+").PokeM(vic.XMap)")
+		add(tInt, src.name+" -> alib.FI, method writes *int argument (&package var)", "alib.FI("+src.code+").PokeP(&vic.XInt)")
+		add(tPInt, src.name+" -> alib.FI, method writes *int argument (victim pointer)", "alib.FI("+src.code+").PokeP(vic.XPInt)")
+		add(tInt, src.name+" -> alib.FI, method writes *int argument (&field behind pointer)", "alib.FI("+src.code+").PokeP(&vic.XPS.N)")
+	}
+	class = "victim closure -> named func type by assignment, method writes its arguments"
+	add(tSlI, "victim closure -> alib.FI by assignment, method writes []int argument", "var f alib.FI = vic.XFn\nf.PokeSl(vic.GetS())")
+	class = "victim slice/map/pointer -> named type, method writes the receiver"
+	add(tSlI, "victim slice -> alib.Ints, method writes receiver", "alib.Ints(vic.XSl).Set()")
+	add(tSlI, "victim slice -> alib.Ints by assignment, method writes receiver", "var s alib.Ints = vic.XSl\ns.Set()")
+	add(tSlI, "victim slice (getter) -> alib.Ints, method writes receiver", "alib.Ints(vic.GetS()).Set()")
+	add(tMapI, "victim map -> alib.MapI, method inserts", "alib.MapI(vic.XMap).Ins()")
+	add(tMapI, "victim map -> alib.MapI by assignment, method deletes", "var m alib.MapI = vic.GetM()\nm.Del()")
+	add(tPPT, "victim *ptypes.T -> *alib.T2, method writes receiver", "(*alib.T2)(vic.XPPT).Set()")
+	add(tPPT, "victim &ptypes.T var -> *alib.T2, method writes receiver", "(*alib.T2)(&vic.XPT).Set()")
+	add(tInner, "victim &Inner -> *alib.In2, method writes receiver", "(*alib.In2)(&vic.XS.In).Set()")
+	add(tPArr, "victim &[2]int -> *alib.Arr2, method writes receiver", "(*alib.Arr2)(&vic.XArr).Set()")
+	add(tPArr, "victim *[2]int (getter) -> *alib.Arr2, method writes receiver", "(*alib.Arr2)(vic.GetPArr()).Set()")
+	add(tD, "victim &D -> *alib.D2, method writes receiver", "(*alib.D2)(&vic.XD).Set()")
+	add(tPInt, "victim *int -> *alib.D2, method writes receiver", "(*alib.D2)(vic.XPInt).Set()")
+	return ps
+}
+
 func allPrograms(depth int) []program {
 	var ps []program
 	// construction / realm-value programs first: a budget-capped run still covers them
@@ -360,7 +397,7 @@ func allPrograms(depth int) []program {
 			ps = append(ps, p)
 		}
 	}
-	sort.SliceStable(ps, func(i, j int) bool { return false })
+	ps = append(ps, typePuns()...)
 	for i := range ps {
 		ps[i].id = i
 	}
@@ -386,17 +423,17 @@ func indent(code string) string {
 
 // source of the attacker realm for one program.
 func atkRealm(p program, pkg string) string {
-	return "package " + pkg + "\n\nimport vic \"gno.land/r/verif/victim\"\nimport \"gno.land/p/verif/ptypes\"\n\nvar _ = ptypes.WInt\nvar _ = vic.Ping\n" + atkDecls +
+	return "package " + pkg + "\n\nimport vic \"gno.land/r/verif/victim\"\nimport \"gno.land/p/verif/ptypes\"\nimport \"gno.land/p/verif/alib\"\n\nvar _ = ptypes.WInt\nvar _ = vic.Ping\nvar _ = alib.MkWSl\n" + atkDecls +
 		"\nfunc Atk(cur realm) {\n" + indent(p.code) + "}\n\nfunc Nc() {\n" + indent(strings.ReplaceAll(p.code, "cur", "curUnavailable")) + "}\n"
 }
 
 func atkRealmCrossingOnly(p program, pkg string) string {
-	return "package " + pkg + "\n\nimport vic \"gno.land/r/verif/victim\"\nimport \"gno.land/p/verif/ptypes\"\n\nvar _ = ptypes.WInt\nvar _ = vic.Ping\n" + atkDecls +
+	return "package " + pkg + "\n\nimport vic \"gno.land/r/verif/victim\"\nimport \"gno.land/p/verif/ptypes\"\nimport \"gno.land/p/verif/alib\"\n\nvar _ = ptypes.WInt\nvar _ = vic.Ping\nvar _ = alib.MkWSl\n" + atkDecls +
 		"\nfunc Atk(cur realm) {\n" + indent(p.code) + "}\n"
 }
 
 func runScript(p program) string {
-	return "package main\n\nimport vic \"gno.land/r/verif/victim\"\nimport \"gno.land/p/verif/ptypes\"\n\nvar _ = ptypes.WInt\nvar _ = vic.Ping\n" + atkDecls +
+	return "package main\n\nimport vic \"gno.land/r/verif/victim\"\nimport \"gno.land/p/verif/ptypes\"\nimport \"gno.land/p/verif/alib\"\n\nvar _ = ptypes.WInt\nvar _ = vic.Ping\nvar _ = alib.MkWSl\n" + atkDecls +
 		"\nfunc main(cur realm) {\n" + indent(p.code) + "}\n"
 }
 
@@ -404,5 +441,9 @@ func runScript(p program) string {
 func ctlRealm(p program, victimSrc string) string {
 	src := strings.Replace(victimSrc, "package victim", "package ctl", 1)
 	code := strings.ReplaceAll(p.code, "vic.", "")
-	return src + "\nvar keep interface{}\n\nfunc setInt(p *int) { *p = 9 }\nfunc setSl(s []int) { s[0] = 9 }\n\nfunc Ctl(cur realm) {\n" + indent(code) + "}\n"
+	if strings.Contains(code, "alib.") {
+		src = strings.Replace(src, "import \"gno.land/p/verif/ptypes\"", "import \"gno.land/p/verif/ptypes\"\nimport \"gno.land/p/verif/alib\"", 1)
+	}
+	// SEEN/BLIND: does the victim's own Dump() (the in-transaction observer of the recover class) see this write?
+	return src + "\nvar keep interface{}\n\nfunc setInt(p *int) { *p = 9 }\nfunc setSl(s []int) { s[0] = 9 }\n\nfunc ctlW() {\n" + indent(code) + "}\n\nfunc Ctl(cur realm) string {\n\tb0 := Dump()\n\tctlW()\n\tif Dump() != b0 {\n\t\treturn \"SEEN\"\n\t}\n\treturn \"BLIND\"\n}\n"
 }
